@@ -3,7 +3,8 @@
    steps (device index d = one digit): dR<v> ROAccessReport variant v, dE<v> ReaderEventNotification
    variant v (v=4: a successful ConnectionAttemptEvent in mid-stream), dr<v>/de<v> undecodable
    report/event, dM/dL a large report under/over the 640 KiB buffer limit (over: refused like an undecodable one), dK keep-alive, dC<k> command through the driver.
-   Every device first receives its connection event (content 1000+d). The content of step i is i.
+   Every device first receives the connection event of each of its connections (d+<modes> steps: failing
+   connections before the normal one; content 2000+100d+n). dT<k>: a request with a deadline (a Command). The content of step i is i.
    The model is run on these Recv events with publisher completions interleaved at random (seeded),
    then drained. answer: "<n> d:RO:i d:REN:i ..." (sorted) "| pending=<n> expected_ok=<0|1>" *)
 open Model
@@ -25,8 +26,15 @@ let scenario toks =
     let ndev = int_of_string ndev in
     Random.init (int_of_string seed);
     let recvs = ref [] in
+    (* connection events: one per planned connection (d+<modes>: one failing connection per
+       character, then the normal one), content 2000+100d+n *)
     for d = 0 to ndev - 1 do
-      recvs := Recv (n_of_int d, MReaderEventNotification, Some (n_of_int (1000 + d)), true) :: !recvs
+      let modes = List.fold_left (fun acc st ->
+          if String.length st > 2 && st.[1] = '+' && Char.code st.[0] - 48 = d
+          then String.sub st 2 (String.length st - 2) else acc) "" steps in
+      for n = 0 to String.length modes do
+        recvs := Recv (n_of_int d, MReaderEventNotification, Some (n_of_int (2000 + 100 * d + n)), true) :: !recvs
+      done
     done;
     List.iteri (fun i st ->
         let d = n_of_int (Char.code st.[0] - 48) in
@@ -38,7 +46,8 @@ let scenario toks =
           | 'L' | 'r' -> Recv (d, MROAccessReport, None, false)
           | 'e' -> Recv (d, MReaderEventNotification, None, false)
           | 'K' -> KeepAliveAck d
-          | 'C' -> Command d
+          | 'C' | 'T' -> Command d
+          | '+' -> KeepAliveAck d   (* placeholder: handled above, no effect *)
           | _ -> failwith ("bad step " ^ st) in
         recvs := e :: !recvs) steps;
     let recvs = List.rev !recvs in
